@@ -97,6 +97,9 @@ pub fn worker_loop(
             }
         }
         let seed = run_seed(verif_seed, &tag, i);
+        if std::env::var("VERIF_TRACE_RUNS").is_ok() {
+            eprintln!("run {}", i);
+        }
         let r = p.run_one(seed, i, thorough);
         out.runs += 1;
         if r.skipped {
